@@ -114,6 +114,20 @@ CHECKS["C05"] = dict(
     note="quick validates a stratified sample of the logs (all that deviate from the reference first); the unseen tail of a fresh array is unconstrained",
     design="5 C05")
 
+CHECKS["C09"] = dict(
+    engine="tlc-sysv+llgo+c",
+    technique="TLA+ System V classification (SysVAbi/SysVShapes/SysVCall) enumerates struct shapes and call shapes and selects one representative per classification state x argument position x register pressure; llgo-compiled Go<->C programs must satisfy the identity law field by field in six directions; gcc<->gcc/clang self-validates the generated C",
+    text="~390 cases in quick (2,500 in thorough, O0 and O2*): every classification vector, nesting/padding pattern and register-pressure situation the TLA+ ABI model distinguishes is exercised as Go->C argument, C->Go result, callback parameter, callback result and by-value copy semantics with distinct bit patterns (sign bits, NaN payloads); C strings round-trip through AllocCStr/AllocaCStr/GoString.",
+    note="only the host ABI (x86-64 System V) is executed; classification drift vs GetTypeInfo is reported, never judged; O2 = reduced pipeline O2*",
+    design="5 C09")
+CHECKS["C15"] = dict(
+    engine="tlc-reflectmodel+llgo",
+    technique="TLA+ TypeTerms/ReflectModel/FmtModel own the grammar of type strings, method sets, DeepEqual and fmt verbs; TLC enumerates type/value terms with the expected text of every query; llgo-compiled self-describing programs in four reflect-usage variants must print exactly that text; the reference toolchain validates the spec text",
+    text="~330 type terms / 13k expected lines in quick (2.4k / 83k in thorough) over named and unnamed types, methods on value and pointer receivers, embedding and promotion, tags, unexported fields, generic instances; Kind/Name/PkgPath/String/fields/method tables/reflected calls/DeepEqual (incl. all 3-node pointer heaps)/Convert/Set and %v %+v %#v %T %d %s %q %x %t. "
+         "Program variants differ in which reflect calls appear, to exercise method-table pruning.",
+    note="float formatting, width/precision flags and func-value size facts are outside the spec; three known finding classes are represented by fixed terms and seeded generation is kept away from them",
+    design="5 C15")
+
 NOT_YET = {}
 
 props = [json.loads(l) for l in open(os.path.join(V, "properties.jsonl"))]
